@@ -84,7 +84,7 @@ def pad_chains(spec, iid, inst, env, tree, p, bound):
 
 
 def shape_sig(td):
-    return tuple((k, tuple(v.shape[1:]), str(v.dtype)) for k, v in sorted(td.items()))
+    return E.group_sig(td)
 
 
 def unit(item):
